@@ -133,7 +133,9 @@ Proof.
   replace (2 * d mod 2 =? 0) with true
     by (symmetry; apply Z.eqb_eq; rewrite Z.mul_comm, Z.mod_mul by lia; reflexivity).
   rewrite (Z.mul_comm 2 d), Z.div_mul by lia. cbn [app].
-  replace d with (Z.of_nat (Z.to_nat d)) at 1 by lia. rewrite (even_word (Z.to_nat d)). f_equal. lia.
+  transitivity (flat_map (pair_body 0) (zrange 0 (Z.of_nat (Z.to_nat d)))).
+  { replace (Z.of_nat (Z.to_nat d)) with d by lia. reflexivity. }
+  rewrite (even_word (Z.to_nat d)). f_equal. lia.
 Qed.
 
 (* ------------------------------------------------------------------ matrices: the auxiliary-|0> block *)
@@ -159,7 +161,7 @@ Section Block.
         * rewrite (proj1 (HA r k Hr Hk)), (proj1 (HB k c Hk Hc)). reflexivity.
         * rewrite (proj2 (HB k c Hk Hc)). ring.
       + rewrite (bsum_zero m (fun _ => 0)) by reflexivity. ring.
-    - transitivity (bsum m (fun k => 0) + bsum m (fun k => 0) :> K).
+    - transitivity ((bsum m (fun k => 0) + bsum m (fun k => 0)) : K).
       + f_equal; apply bsum_ext; intros k Hk.
         * rewrite (proj2 (HA r k Hr Hk)). ring.
         * rewrite (proj2 (HB k c Hk Hc)). ring.
@@ -207,8 +209,8 @@ Section Block.
     blk0 n (circuit_mx (Datatypes.S n) (upow_q 0 u) (aux_circuit ideal_aux n)) (shift_spec u).
   Proof.
     intros Hu r c Hr Hc. split.
-    - rewrite (aux_matrix u Hu n (false :: r) c) by (cbn; congruence).
+    - rewrite (aux_matrix u n (false :: r) c) by (cbn; congruence).
       unfold shift_spec. cbn [beq Bool.eqb andb]. reflexivity.
-    - rewrite (aux_matrix u Hu n (true :: r) c) by (cbn; congruence). reflexivity.
+    - rewrite (aux_matrix u n (true :: r) c) by (cbn; congruence). reflexivity.
   Qed.
 End Block.
